@@ -15,10 +15,15 @@
                                SetMasterHead waiting for buffer space completes
 
     All theorems quantify over any number of connections, waiters and head updates
-    and over all interleavings (the LTS of Model/PoolWait.v). *)
+    and over all interleavings (the LTS of Model/PoolWait.v).  The pool lock is modelled
+    with Go's writer preference (an announced Lock() blocks new RLock()s), every
+    acquisition of the write lock is two steps (announce, acquire); the step function's
+    flag [false] is the real code, [true] the variant whose notifySubscribers re-acquires
+    the read lock (refuted at the end; Properties/C13_gen.v re-checks on the source that
+    no method re-acquires a lock it holds). *)
 From Coq Require Import List NArith ZArith Bool.
 From Tongo Require Import Model.Pool Model.PoolWait Proofs.PoolP
-  Proofs.PoolWaitP Proofs.PoolWaitMsgP Proofs.PoolWaitW.
+  Proofs.PoolWaitP Proofs.PoolWaitMsgP Proofs.PoolWaitIdP Proofs.PoolWaitW Proofs.PoolMutants.
 Import ListNotations.
 
 (** ---- selection rule (any number of connections) ---- *)
@@ -56,22 +61,21 @@ Proof. exact usable_iff_eligible. Qed.
     a head connection c had really reached. *)
 Theorem C13_wait_success :
   forall strat nconns tgt heads b s w,
-    reachable strat nconns tgt (init_state heads b) s ->
-    (wpc s w = WUnsub ROk \/ wpc s w = WDone ROk) ->
+    reachable strat false nconns tgt (init_state heads b) s ->
+    succeeded (wpc s w) ->   (* = WUnsub ROk, WUnsubW ROk or WDone ROk *)
     exists c h, wgot s w = Some (c, h) /\ (tgt w <= h)%N /\ In (c, h) (log s) /\ (h <= head s c)%N.
 Proof. exact wait_success. Qed.
 Print Assumptions C13_wait_success.
 
 Theorem C13_wait_success_iff :
   forall strat nconns tgt heads b s w,
-    reachable strat nconns tgt (init_state heads b) s ->
-    ((wpc s w = WUnsub ROk \/ wpc s w = WDone ROk) <->
-     exists m, wgot s w = Some m /\ (tgt w <= snd m)%N).
+    reachable strat false nconns tgt (init_state heads b) s ->
+    (succeeded (wpc s w) <-> exists m, wgot s w = Some m /\ (tgt w <= snd m)%N).
 Proof. exact wait_success_iff. Qed.
 
 Theorem C13_log_from_best :
   forall strat nconns tgt s l s',
-    step strat nconns tgt s l = Some s' ->
+    step strat false nconns tgt s l = Some s' ->
     log s' = log s \/
     exists c h, log s' = log s ++ [(c, h)] /\ best s = Some c /\
       ((exists w, l = LSubBody w /\ h = head s c) \/
@@ -82,8 +86,8 @@ Proof. exact log_from_best. Qed.
 Theorem C13_wait_immediate :
   forall strat nconns tgt s w b,
     wpc s w = WSubL -> writer s = Some (AW w) -> best s = Some b -> (tgt w <= head s b)%N ->
-    exists s1 s2, step strat nconns tgt s (LSubBody w) = Some s1 /\
-                  step strat nconns tgt s1 (LRecv w) = Some s2 /\ wpc s2 w = WUnsub ROk /\
+    exists s1 s2, step strat false nconns tgt s (LSubBody w) = Some s1 /\
+                  step strat false nconns tgt s1 (LRecv w) = Some s2 /\ wpc s2 w = WUnsub ROk /\
                   writer s1 = None /\ wl s1 = wl s.
 Proof. exact wait_immediate. Qed.
 
@@ -93,10 +97,10 @@ Proof. exact wait_immediate. Qed.
     one with a larger seqno) *)
 Theorem C13_wait_not_missed :
   forall strat nconns tgt heads b s w m,
-    reachable strat nconns tgt (init_state heads b) s ->
+    reachable strat false nconns tgt (init_state heads b) s ->
     wpc s w = WWait -> In m (woff s w) -> (tgt w <= snd m)%N ->
     exists m' s', wch s w = Some m' /\ (tgt w <= snd m')%N /\
-                  step strat nconns tgt s (LRecv w) = Some s' /\ wpc s' w = WUnsub ROk.
+                  step strat false nconns tgt s (LRecv w) = Some s' /\ wpc s' w = WUnsub ROk.
 Proof. exact wait_not_missed. Qed.
 Print Assumptions C13_wait_not_missed.
 
@@ -104,7 +108,7 @@ Print Assumptions C13_wait_not_missed.
     sent to every waiter registered at that moment *)
 Theorem C13_notify_reaches_all :
   forall strat nconns tgt heads b s u,
-    reachable strat nconns tgt (init_state heads b) s -> rpc s = RNotify u true [] ->
+    reachable strat false nconns tgt (init_state heads b) s -> rpc s = RNotify u true [] ->
     forall id w, In (id, w) (wl s) -> In u (woff s w).
 Proof. exact notify_reaches_all. Qed.
 
@@ -114,31 +118,83 @@ Proof. exact notify_reaches_all. Qed.
 Theorem C13_wait_leave_enabled :
   forall strat nconns tgt s w r,
     wpc s w = WWait -> r <> ROk ->
-    exists s', step strat nconns tgt s (LLeave w r) = Some s' /\ wpc s' w = WUnsub r.
+    exists s', step strat false nconns tgt s (LLeave w r) = Some s' /\ wpc s' w = WUnsub r.
 Proof. exact wait_leave_enabled. Qed.
 
 Theorem C13_wait_error :
   forall strat nconns tgt s l s' w r,
-    step strat nconns tgt s l = Some s' -> wpc s' w = WUnsub r -> wpc s w <> WUnsub r -> r <> ROk ->
+    step strat false nconns tgt s l = Some s' -> wpc s' w = WUnsub r -> wpc s w <> WUnsub r -> r <> ROk ->
     l = LLeave w r.
 Proof. exact wait_error. Qed.
 
-(** a caller that has left its loop (nil, timeout or cancellation) returns: the
-    current holder of the pool lock finishes by its own moves ([release]), then the
-    deferred unsubscribe runs; its registration is gone *)
+(** a caller that has left its loop (nil, timeout or cancellation) returns: after moves
+    of the pool's own goroutines (the lock holder finishes, an announced writer is
+    served) its deferred unsubscribe announces itself, gets the lock and deletes its
+    own registration *)
 Theorem C13_wait_returns :
   forall strat nconns tgt heads b s w r,
-    reachable strat nconns tgt (init_state heads b) s -> wpc s w = WUnsub r ->
-    exists s', run strat nconns tgt s (release s ++ [LUnsub w]) = Some s' /\ wpc s' w = WDone r /\
-               (forall e, In e (wl s') -> fst e <> wid s w).
+    reachable strat false nconns tgt (init_state heads b) s -> wpc s w = WUnsub r ->
+    exists ls s', forallb internal ls = true /\
+      run strat false nconns tgt s (ls ++ [LUnsubWant w; LUnsub w]) = Some s' /\ wpc s' w = WDone r /\
+      (forall e, In e (wl s') -> fst e <> wid s w).
 Proof. exact wait_returns. Qed.
 Print Assumptions C13_wait_returns.
+
+(** ---- wait-list ids: a satisfied caller's unsubscribe(0) removes nobody ---- *)
+
+(** subscribe hands out id 0 with nothing registered (head already in the caller's
+    channel), or a fresh non-zero id under which the caller is registered *)
+Theorem C13_subscribe_ids :
+  forall strat nconns tgt heads b s w s',
+    reachable strat false nconns tgt (init_state heads b) s ->
+    step strat false nconns tgt s (LSubBody w) = Some s' ->
+    (wid s' w = 0%N /\ wl s' = wl s /\ wch s' w <> None) \/
+    (wid s' w <> 0%N /\ wl s' = wl s ++ [(wid s' w, w)] /\ forall e, In e (wl s) -> fst e <> wid s' w) \/
+    wpc s' w = WPanicked.
+Proof. exact subscribe_ids. Qed.
+
+Theorem C13_registered_id_nonzero :
+  forall strat nconns tgt heads b s id w,
+    reachable strat false nconns tgt (init_state heads b) s -> In (id, w) (wl s) -> id <> 0%N /\ wid s w = id.
+Proof. exact registered_id_nonzero. Qed.
+
+Theorem C13_unsub_satisfied_removes_nobody :
+  forall strat nconns tgt heads b s w s',
+    reachable strat false nconns tgt (init_state heads b) s -> wid s w = 0%N ->
+    step strat false nconns tgt s (LUnsub w) = Some s' -> wl s' = wl s.
+Proof. exact unsub_satisfied_removes_nobody. Qed.
+Print Assumptions C13_unsub_satisfied_removes_nobody.
+
+Theorem C13_unsub_removes_only_own :
+  forall strat nconns tgt heads b s w s',
+    reachable strat false nconns tgt (init_state heads b) s ->
+    step strat false nconns tgt s (LUnsub w) = Some s' ->
+    forall e, In e (wl s) -> (In e (wl s') <-> snd e <> w).
+Proof. exact unsub_removes_only_own. Qed.
+
+(** a registered waiter stays registered until its own unsubscribe, so a sufficient
+    head of the best connection that Run has finished notifying is in its channel and
+    its receive returns success *)
+Theorem C13_waiter_stays_registered :
+  forall strat nconns tgt heads b s w,
+    reachable strat false nconns tgt (init_state heads b) s -> subscribed (wpc s w) = true -> wid s w <> 0%N ->
+    In (wid s w, w) (wl s).
+Proof. exact waiter_stays_registered. Qed.
+
+Theorem C13_registered_waiter_gets_head :
+  forall strat nconns tgt heads b s w u,
+    reachable strat false nconns tgt (init_state heads b) s -> wpc s w = WWait -> wid s w <> 0%N ->
+    rpc s = RNotify u true [] -> (tgt w <= snd u)%N ->
+    exists m' s', wch s w = Some m' /\ (tgt w <= snd m')%N /\
+                  step strat false nconns tgt s (LRecv w) = Some s' /\ wpc s' w = WUnsub ROk.
+Proof. exact registered_waiter_gets_head. Qed.
+Print Assumptions C13_registered_waiter_gets_head.
 
 (** ---- the pool never blocks ---- *)
 
 Theorem C13_pool_lock_mutex :
   forall strat nconns tgt heads b s,
-    reachable strat nconns tgt (init_state heads b) s ->
+    reachable strat false nconns tgt (init_state heads b) s ->
     (writer s <> None -> readers s = 0) /\
     (forall w w', wpc s w = WSubL -> wpc s w' = WSubL -> w = w') /\
     (forall w, wpc s w = WSubL -> rpc s <> RUpd).
@@ -148,56 +204,79 @@ Proof. exact pool_lock_mutex. Qed.
     Run inside notifySubscribers) has an enabled step *)
 Theorem C13_pool_never_blocks :
   forall strat nconns tgt heads b s,
-    reachable strat nconns tgt (init_state heads b) s -> holder_can_step strat nconns tgt s.
+    reachable strat false nconns tgt (init_state heads b) s -> holder_can_step strat false nconns tgt s.
 Proof. exact pool_never_blocks. Qed.
 Print Assumptions C13_pool_never_blocks.
 
-(** ... and its own moves free the lock *)
+(** no goroutine asks for p.mu while it holds p.mu (no recursive locking) *)
+Theorem C13_no_reacquire :
+  forall strat nconns tgt heads b s,
+    reachable strat false nconns tgt (init_state heads b) s ->
+    (forall a, wreq s = Some a -> writer s = None /\ (a = ARun -> readers s = 0)) /\
+    (forall u, rpc s = RWantR u -> readers s = 0 /\ writer s <> Some ARun) /\
+    (forall u, rpc s <> RInner u).
+Proof. exact no_reacquire. Qed.
+
+(** no reachable deadlock on the pool lock, under writer preference: moves of the
+    pool's own goroutines free the lock and serve the announced writer *)
 Theorem C13_lock_released :
   forall strat nconns tgt heads b s,
-    reachable strat nconns tgt (init_state heads b) s ->
-    exists s', run strat nconns tgt s (release s) = Some s' /\ lock_free s' = true.
+    reachable strat false nconns tgt (init_state heads b) s ->
+    exists ls s', forallb internal ls = true /\ run strat false nconns tgt s ls = Some s' /\
+                  lock_free s' = true /\ wreq s' = None.
 Proof. exact lock_released. Qed.
+Print Assumptions C13_lock_released.
 
 (** Run is live: from every reachable state it gets back to its select by moves of
     the pool's own goroutines only (no new head, no new caller, no timeout needed),
     leaving the update buffer untouched *)
 Theorem C13_run_is_live :
   forall strat nconns tgt heads b s,
-    reachable strat nconns tgt (init_state heads b) s ->
-    exists ls s', forallb internal ls = true /\ run strat nconns tgt s ls = Some s' /\ rpc s' = RIdle /\
+    reachable strat false nconns tgt (init_state heads b) s ->
+    exists ls s', forallb internal ls = true /\ run strat false nconns tgt s ls = Some s' /\ rpc s' = RIdle /\
                   updq s' = updq s /\ pend s' = pend s.
 Proof. exact run_gets_home. Qed.
 
 (** SetMasterHead holds the connection lock only for a non-blocking critical section
     (one step of the model, [LSetHead], always enabled) ... *)
 Theorem C13_set_head_enabled :
-  forall strat nconns tgt s c h, step strat nconns tgt s (LSetHead c h) <> None.
+  forall strat nconns tgt s c h, step strat false nconns tgt s (LSetHead c h) <> None.
 Proof. exact set_head_enabled. Qed.
 
 (** ... and its send into the update buffer, done after the unlock, completes: at
     once if the buffer has room, otherwise after Run has taken one update *)
 Theorem C13_publish_completes :
   forall strat nconns tgt heads b s k m,
-    reachable strat nconns tgt (init_state heads b) s -> nth_error (pend s) k = Some m ->
+    reachable strat false nconns tgt (init_state heads b) s -> nth_error (pend s) k = Some m ->
     exists ls s', forallb internal ls = true /\
-                  run strat nconns tgt s (ls ++ [LPublish k]) = Some s' /\ In m (updq s').
+                  run strat false nconns tgt s (ls ++ [LPublish k]) = Some s' /\ In m (updq s').
 Proof. exact publish_completes. Qed.
 Print Assumptions C13_publish_completes.
 
 (** a connection's head never decreases *)
 Theorem C13_head_monotone :
   forall strat nconns tgt s s' c,
-    reachable strat nconns tgt s s' -> (head s c <= head s' c)%N.
+    reachable strat false nconns tgt s s' -> (head s c <= head s' c)%N.
 Proof. exact head_monotone_reachable. Qed.
 
 (** in a pool with at least one connection the best connection is always one of the
     pool's connections and subscribe never dereferences nil *)
 Theorem C13_subscribe_never_panics :
   forall strat nconns tgt heads b s,
-    b < nconns -> reachable strat nconns tgt (init_state heads (Some b)) s ->
+    b < nconns -> reachable strat false nconns tgt (init_state heads (Some b)) s ->
     (exists b', best s = Some b' /\ b' < nconns) /\ forall w, wpc s w <> WPanicked.
 Proof. exact subscribe_never_panics. Qed.
+
+(** ---- why the lock model matters: the re-entrant variant deadlocks ---- *)
+
+(** REFUTED for the variant of notifySubscribers that takes p.mu.RLock() again while
+    holding it: one head update being notified while a caller arrives *)
+Theorem C13_reentrant_rlock_refuted :
+  exists strat nconns tgt heads b s,
+    reachable strat true nconns tgt (init_state heads b) s /\
+    forall s', reachable strat true nconns tgt s s' ->
+      ~ holder_can_step strat true nconns tgt s' /\ rpc s' = RInner (0, 1%N) /\ wpc s' 0 = WSubW.
+Proof. exact pool_never_blocks_refuted_reentrant_rlock. Qed.
 
 (** ---- non-vacuity ---- *)
 
@@ -221,14 +300,14 @@ Qed.
     running to completion *)
 Example C13_wait_example :
   exists s,
-    run BestPing 1 (fun _ => 10%N) (init_state (fun _ => 5%N) (Some 0))
-      [LSubLock 0; LSubBody 0; LSetHead 0 12; LPublish 0; LTake; LRLock [0]; LSend; LRUnlock;
-       LRecv 0; LUnsub 0] = Some s /\
+    run BestPing false 1 (fun _ => 10%N) (init_state (fun _ => 5%N) (Some 0))
+      [LSubWant 0; LSubLock 0; LSubBody 0; LSetHead 0 12; LPublish 0; LTake; LRLock [0]; LSend; LRUnlock;
+       LRecv 0; LUnsubWant 0; LUnsub 0] = Some s /\
     wpc s 0 = WDone ROk /\ wgot s 0 = Some (0, 12%N) /\ wl s = [] /\ readers s = 0 /\ writer s = None.
 Proof. exact wait_example. Qed.
 
 Example C13_f14_schedule_completes :
-  exists s, run BestPing 1 w_tgt (init_state (fun _ => 5%N) (Some 0)) f14_trace = Some s /\
+  exists s, run BestPing false 1 w_tgt (init_state (fun _ => 5%N) (Some 0)) f14_trace = Some s /\
     wpc s 0 = WDone RTimeout /\ wch s 0 = Some (0, 7%N) /\ wl s = [] /\
     readers s = 0 /\ writer s = None /\ rpc s = RIdle.
 Proof. exact f14_trace_completes. Qed.
